@@ -9,6 +9,7 @@ optional whitespace), `spec412`, `spec304`. Dates are whole seconds as `httpdate
 -/
 import HttpServeModel.Lemmas.CondLemmas
 import HttpServeModel.Lemmas.Clock
+import HttpServeModel.Lemmas.ServeCalls
 
 namespace HS
 
@@ -91,5 +92,13 @@ example :
   intro p hp
   simp at hp
   rcases hp with rfl | rfl <;> simp [Tag.wf]
+
+/-- A response decided by the conditional headers alone — 304, 412, or the 400 for an unparseable
+one — is decided from the two validators only: the entity is asked for its modification time and
+its ETag and for nothing else (not its length, not its headers, not a byte of data). -/
+theorem C04_decided_from_validators_only (q : Req) (e : Ent) (now : Nat) (r : Resp)
+    (h : serve q e now = .ok r) (hs : r.status ∈ [304, 400, 412]) :
+    r.calls = [.lastModified, .etag] :=
+  precondition_outcomes_touch_validators_only q e now r h hs
 
 end HS
